@@ -147,21 +147,23 @@ def h09a_rect(row, col, rb, re, cb, ce, rb_abs, re_abs, cb_abs, ce_abs, row_limi
     assert (ca, ra) == (ce_abs, re_abs) and (r, c) == (tre, tce)
 
 
-def h09b_qualify(n_host, n_same, n_other, target, s2):
+def h09b_qualify(n_host, n_same, n_other, n_third, n_fourth, target, s2, s3):
     """a reference into another table is qualified so that, given the document's own names, exactly one table matches -
     the stored one"""
     # sheet 0: host table 7 and table 8; sheet 1: tables 9 and 10; names are 1-character symbolic atoms
-    assume(s2 != "1")                 # sheet names are unique in a document (C19)
-    names = {7: "H" + n_host, 8: "T" + n_same, 9: "T" + n_other, 10: "U" + n_host}
-    m = RefModel([("S1", [(7, names[7]), (8, names[8])]), ("S" + s2, [(9, names[9]), (10, names[10])])])
+    assume(s2 != "1" and s3 != "1" and s2 != s3)      # sheet names are unique in a document (C19)
+    assume(n_other != n_third)        # table names are unique within a sheet (C19)
+    names = {7: "H" + n_host, 8: "T" + n_same, 9: "T" + n_other, 10: "T" + n_third, 11: "T" + n_fourth}
+    m = RefModel([("S1", [(7, names[7]), (8, names[8])]), ("S" + s2, [(9, names[9]), (10, names[10])]),
+                  ("S" + s3, [(11, names[11])])])
     node = Node(AST_row=Node(row=1, absolute=False), AST_column=Node(column=1, absolute=False),
                 AST_cross_table_reference_extra_info=Node(table_id=target))
     text = str(m.node_to_ref(7, 2, 2, node))
     parts = text.split("::")
     assert parts[-1] == "D4"
     # resolve the printed prefix against the document's names, the way a reader of the formula would
-    sheet_names = ["S1", "S" + s2]
-    tables = [(0, 7), (0, 8), (1, 9), (1, 10)]
+    sheet_names = ["S1", "S" + s2, "S" + s3]
+    tables = [(0, 7), (0, 8), (1, 9), (1, 10), (2, 11)]
     if len(parts) == 1:
         matches = [7]
     elif len(parts) == 2:
@@ -196,9 +198,9 @@ HARNESSES = [
             bounds="rectangle corners: every int combination with begin <= end inside 100 rows (quick) / 1 000 000 rows (thorough) x 1000 "
                    "columns, host anywhere in the table limits; all 16 absolute-flag combinations"),
     Harness("H09b", h09b_qualify,
-            dict(n_host=StrDom(1, ALNUM), n_same=StrDom(1, ALNUM), n_other=StrDom(1, ALNUM), target=Cases([8, 9, 10]), s2=StrDom(1, ALNUM)),
-            bounds="2 sheets x 2 tables; table and sheet names carry one symbolic alphanumeric character each, so every equality pattern "
-                   "(unique, duplicated across sheets, shared with the host sheet) is covered",
+            dict(n_host=StrDom(1, ALNUM), n_same=StrDom(1, ALNUM), n_other=StrDom(1, ALNUM), n_third=StrDom(1, ALNUM), n_fourth=StrDom(1, ALNUM), target=Cases([8, 9, 10, 11]), s2=StrDom(1, ALNUM), s3=StrDom(1, ALNUM)),
+            bounds="3 sheets with 2+2+1 tables; table and sheet names carry one symbolic alphanumeric character each, so every equality pattern "
+                   "(unique, duplicated across two or three sheets, shared with the host sheet) is covered",
             stubs=["NumbersUUID(...).hex and table_uuids_to_id: identity on the stub table id"],
             patches=[(modelmod, "NumbersUUID", NumbersUUIDStub)]),
 ]
